@@ -15,7 +15,7 @@ FLAGBIT = {"headerless": 0, "barred": 1, "right": 2, "nojlistwrap": 3, "nojvstac
 OPTS_FOR = {
     "dkvp": ["crlf"], "nidx": ["crlf"], "jsonl": [], "csv": ["headerless", "quoteall", "crlf"], "json": ["nojlistwrap", "nojvstack"],
     "tsv": ["headerless", "crlf"], "xtab": ["right"], "pprint": ["headerless", "barred", "right", "crlf"],
-    "markdown": ["mdaligned", "crlf"], "csvlite": ["headerless", "crlf"],
+    "markdown": ["mdaligned", "crlf"], "csvlite": ["headerless", "crlf"], "yaml": [],
 }
 MLRFLAG = {"headerless": {"csv": "--headerless-csv-output", "tsv": "--headerless-tsv-output", "pprint": "--headerless-pprint-output",
                           "csvlite": "--headerless-csv-output"},
@@ -138,12 +138,15 @@ def build(ctx, cap):
         cases.append({"mode": mode, "fmt": fmt, "opts": opts, "ops": ops, "before": before, "pattern": "writers-small"})
         ctx.dist("writers:small:" + fmt)
     # beyond the capacity: every target visited, then revisited (after its eviction) with a DIFFERENT schema where the format allows it
-    big = [("pprint", {}), ("pprint", {"barred": True}), ("markdown", {}), ("markdown", {"mdaligned": True}), ("csvlite", {}),
-           ("json", {"nojlistwrap": True}), ("json", {"nojvstack": True}), ("csv", {"headerless": True}), ("xtab", {"right": True}),
-           ("tsv", {})]
+    # writers that owe their file something at END OF STREAM (retained batch, closing bracket, the whole YAML sequence) are in every
+    # run: a target evicted and never revisited gets that text only if Close() finishes suspended handlers
+    always = [("pprint", {}), ("markdown", {"mdaligned": True}), ("json", {}), ("yaml", {})]
+    big = [("pprint", {"barred": True}), ("markdown", {}), ("csvlite", {}), ("json", {"nojlistwrap": True}), ("json", {"nojvstack": True}),
+           ("csv", {"headerless": True}), ("xtab", {"right": True}), ("tsv", {})]
     if ctx.tier == "quick":
         rng.shuffle(big)
-        big = big[:5]
+        big = big[:2]
+    big = always + big
     for fmt, o in big:
         opts = {k: bool(o.get(k)) for k in OPTS_FOR[fmt]}
         nt = cap + rng.randint(2, 12)
@@ -224,8 +227,57 @@ def statements_sharing_a_file(ctx, scratch):
     return tried
 
 
+def fanouts_before_early_exit(ctx, scratch):
+    """fan-out stages upstream of an early-exit verb on MULTI-BATCH input (records arrive in batches of 500): the tee verb first, then
+    tee verbs / put 'tee > ...' / split, then head -n k.  Every fan-out file must hold EVERY input record in order, the main output the
+    first k.  Returns Coq terms for HarnessChain.chk_chain_n."""
+    rng = ctx.rng
+    terms = []
+    shapes = [("tee-verb,put-tee", ["tee", "A.out", "then", "put", 'tee > "B.out", $*', "then", "head", "-n", "K"], ["A.out", "B.out"]),
+              ("tee-verb,tee-verb", ["tee", "A.out", "then", "tee", "B.out", "then", "head", "-n", "K"], ["A.out", "B.out"]),
+              ("tee-verb,put-tee,put-tee", ["tee", "A.out", "then", "put", 'tee > "B.out", $*', "then", "put", 'tee > "C.out", $*', "then", "head", "-n", "K"],
+               ["A.out", "B.out", "C.out"]),
+              ("tee-verb,split", ["tee", "A.out", "then", "put", 'tee > "S".($i % 3).".out", $*', "then", "head", "-n", "K"], None)]
+    for name, args, fans in shapes:
+        n = rng.choice([1700, 2600, 5200] if ctx.tier == "quick" else [1700, 5200, 20000, 60000])
+        k = rng.randint(1, 4)
+        lines = ["i=%d,v=%s\n" % (i, "".join(rng.choice(VAL) for _ in range(3))) for i in range(n)]
+        d = os.path.join(scratch, "chain_%d" % len(os.listdir(scratch)))
+        os.mkdir(d)
+        a = [x if x != "K" else str(k) for x in args]
+        st, out, err = mlr_run(ctx, a, "".join(lines).encode(), timeout=240, cwd=d)
+        got = {f: (open(os.path.join(d, f), "rb").read().decode("latin1") if os.path.exists(os.path.join(d, f)) else None) for f in sorted(os.listdir(d))}
+        ctx.count(("fanouts-before-early-exit", name, n, k))
+        ctx.dist("chain:" + name)
+        main = out.decode("latin1")
+        if fans is None:                                  # computed names: the union of the three files is the input, each in order
+            want = {"A.out": "".join(lines)}
+            for j in range(3):
+                want["S%d.out" % j] = "".join(l for i, l in enumerate(lines) if i % 3 == j)
+        else:
+            want = {f: "".join(lines) for f in fans}
+        wrong = [f for f in want if got.get(f) != want[f]]
+        main_ok = st == 0 and main == "".join(lines[:k])
+        if wrong or not main_ok:
+            f = wrong[0] if wrong else None
+            ctx.violation({"class": "fanout-content", "what": "a fan-out stage upstream of head did not receive every record (or the main output is not the first k records)",
+                           "shape": name, "input": {"args": a, "records": n, "first_lines": lines[:3]}, "status": st, "wrong_files": wrong,
+                           "records_in_file": (got[f].count("\n") if f and got.get(f) is not None else None), "records_expected": n,
+                           "main_output": main[:200], "stderr": err.decode("latin1")[-300:]})
+            break
+        if fans is not None:
+            terms.append("(%d, %d, %d, [%s], %d)" % (k, k, n, "; ".join(str(got[f].count("\n")) for f in fans), main.count("\n")))
+    return terms
+
+
 def run_writers(ctx, scratch, cap, drive, coq_eval_defs):
     statements_sharing_a_file(ctx, scratch)
+    chain_terms = fanouts_before_early_exit(ctx, scratch)
+    if chain_terms:
+        badc, errc = coq_eval_mismatches(ctx, "C20chainN", "Base.Record C20.Model C20.HarnessChain", "Z * Z * Z * list Z * Z", "chk_chain_n", chain_terms)
+        ctx.cov["correspondence_chain_n"] = {"cases": len(chain_terms), "mismatches": len(badc)}
+        if errc or badc:
+            ctx.violation({"broken": "correspondence C20.HarnessChain.chk_chain_n", "detail": errc[-800:], "cases": [chain_terms[i] for i in badc if i >= 0][:3]}, found_input=False)
     cases = build(ctx, cap)
     with ctx.timed("impl_writers"):
         drive(ctx, scratch, cases)
@@ -249,7 +301,8 @@ def run_writers(ctx, scratch, cap, drive, coq_eval_defs):
                     ctx.violation({"class": "manager-error", "fmt": c["fmt"], "errors": c["errors"][:3], "opts": c["opts"],
                                    "input": {"order": [o[0] for o in c["ops"]][:300], "first_ops": [list(o) for o in c["ops"][:8]]}})
         nbad += oracle(ctx, c, budget)
-    ok_cases = [c for c in cases if c.get("driver", "ok") == "ok"]
+    ok_cases = [c for c in cases if c.get("driver", "ok") == "ok" and c["fmt"] in FCODE]       # yaml: oracle only (marshaller not modelled)
+    ctx.cov["writers_oracle_only(yaml)"] = sum(1 for c in cases if c["fmt"] not in FCODE)
     order = sorted(range(len(ok_cases)), key=lambda i: -len(ok_cases[i]["ops"]))
     nshards = max(1, int(os.environ.get("VERIF_JOBS", "2")))
     order = [i for r in range(nshards) for i in order[r::nshards]]
